@@ -278,7 +278,10 @@ func (w *World) onEvent(ev *simrt.Event) {
 	ok := ev.Err == ""
 	cls := pathClassOf(ev.Path)
 	// interleaving hash over shared-path events projected to (task, kind, class)
-	if !strings.HasPrefix(ev.Kind, "write") {
+	switch ev.Kind {
+	case "write", "readat", "read", "fstat", "close", "seek", "sync", "readblock", "sleep":
+		// descriptor-local: not part of the shared-path projection
+	default:
 		w.interleave = simrt.HashStr(simrt.Mix64(w.interleave^uint64(ev.Task+1)), ev.Kind+":"+cls+":"+ev.Err)
 	}
 	if ev.Err == "EEXIST" && (cls == "listlock" || cls == "tablelock") && cr != nil {
@@ -305,12 +308,20 @@ func (w *World) onEvent(ev *simrt.Event) {
 		}
 	}
 	w.windowProbes(ev, cls, ok)
-	w.detectVersion(ev)
-	if ev.Kind != "write" || cls == "list" || cls == "table" {
-		w.checkListIntegrity(ev, false)
+	if ev.Mut {
+		w.detectVersion(ev)
+		if ev.Kind != "write" || cls == "list" || cls == "table" {
+			w.checkListIntegrity(ev, false)
+		}
 	}
 	if w.strat != nil && ok {
 		switch {
+		case ev.Kind == "readfile" && cls == "list":
+			// a reloading task has just read the list: let the others
+			// change it before the tables are opened
+			if w.bias["after-list-read"] && w.biasRng(ev) {
+				w.strat.ForceSwitch = true
+			}
 		case ev.Kind == "remove" && (cls == "listlock"):
 			if w.bias["after-lock-remove"] {
 				w.strat.ForceSwitch = true
@@ -739,3 +750,7 @@ func (w *World) noteState() {
 	}
 	w.stateSet[h] = true
 }
+
+// biasRng thins a bias out deterministically (every other occurrence,
+// addressed by the event sequence number, no PRNG draw).
+func (w *World) biasRng(ev *simrt.Event) bool { return simrt.Mix64(w.Spec.Seed^uint64(ev.Seq))&1 == 0 }
